@@ -47,8 +47,6 @@ def generate(rng, tier):
         st = sigworld.gen_sign_step(rng, sid, knames, full_options=False)
         if st['kind'] == 'msg':
             st['compression'] = rng.choice([0, 0, 1, 2])
-        if st['kind'] == 'cleartext':
-            st['text'] = st['text'].encode('ascii', 'replace').decode('ascii')
         nd = rng.choice([2, 3, 4, 6]) if tier == 'quick' else rng.choice([3, 5, 8])
         st['deliveries'] = [{'fault': rng.choice(FAULTS), 'pos': rng.random(), 'bit': rng.randrange(8), 'alt': rng.randrange(1 << 16)}
                             for _ in range(nd)]
